@@ -698,6 +698,11 @@ _EXTRA_PAIRS = [
     ({"a": 1, "b": 2}, [["a", "b"], [1, 2]]), ({"a/b": True, "a": {"b": 1}}, {"a/b": 1, "a": {"b": True}}), ({"a.b": 0, "a": {"b": False}}, {"a.b": False, "a": {"b": 0}}),
     ({"1": 0}, [0]), ({"0": "x"}, ["x"]), ("1", 1), ("true", True), ("null", None), ([1, 2], "12"), ([1, 2], "[1, 2]"), ({"a": 1}, '{"a": 1}'), ([[1], [2]], [[1, 2]]),
     ([1, [2]], [[1], 2]), ({"a": {"b": 1}}, {"a": [["b"], [1]]}), ([None], []), ([[]], []), ([{}], [[]]), ({"a": None}, {}), ({"a": []}, {"a": {}}),
+    # strings are equal when their code points are: no Unicode normalisation, case folding or compatibility mapping
+    ("caf\u00e9", "cafe\u0301"), ("\u2126", "\u03a9"), ("\uff21", "A"), ("\u00df", "ss"), ("I", "\u0131"), ("a", "A"), ("\ufb01", "fi"), ("1", "\u0661"), (" a", "a"), ("a\u200b", "a"),
+    (["caf\u00e9"], ["cafe\u0301"]), ({"caf\u00e9": 1}, {"cafe\u0301": 1}), ({"k": "\u2126"}, {"k": "\u03a9"}),
+    # numbers are equal when they are the same number: nothing is rounded, and zero has one value
+    (0.30000000000000004, 0.3), (1.0000000000000002, 1), (1.0000000000000002, 1.0), (0.1 + 0.2, 0.3), (1e-320, 0), (5e-324, 0.0), (2.0 ** 53 + 2, 2 ** 53 + 1), (1e16 + 2, 10 ** 16 + 1),
 ]
 _LONG_PAIRS = [
     (1, 1.0), (1, True), (0, False), (0, -0.0), (0.0, False), ("a", "a"), ("a", "b"), ([1], [1.0]), ([1], [True]), ({"id": 1}, {"id": 1.0}), ({"id": 1}, {"id": True}),
